@@ -19,6 +19,9 @@ func Execute(sc *h.Scenario, choices []int32, replay bool, trace func(string)) *
 	cfg := simrt.Config{Seed: sc.Seed, Strategy: s.Strategy, PTick: s.PTick, PPreempt: s.PPreempt, PCTDepth: s.PCTDepth,
 		StarvePct: s.StarvePct, StarveMax: s.StarveMax, Choices: choices, Replay: replay, MaxSteps: s.MaxSteps,
 		FairBudget: FairBudget, PostBudget: PostBudget, Trace: trace}
+	if s.FairSteps > 0 {
+		cfg.FairBudget = s.FairSteps
+	}
 	if cfg.MaxSteps == 0 {
 		cfg.MaxSteps = DefaultMaxSteps
 	}
